@@ -14,7 +14,7 @@ import (
 )
 
 const (
-	sqlCreateTable = `CREATE TABLE IF NOT EXISTS '%s' (key STRING PRIMARY KEY, value STRING, ttl DATETIME KEY);`
+	sqlCreateTable = `CREATE TABLE IF NOT EXISTS '%s' (key TEXT PRIMARY KEY, value TEXT, ttl DATETIME KEY);`
 	sqlRead        = `SELECT value FROM '%s' WHERE key == ? AND ttl > unixepoch();`
 	sqlWrite       = `INSERT OR REPLACE INTO '%s' (key, value, ttl) VALUES (?, ?, ?);`
 )
